@@ -5,6 +5,7 @@ import (
 	"fmt"
 	"runtime/debug"
 	"sync"
+	"sync/atomic"
 
 	"github.com/free5gc/nas/security"
 
@@ -230,4 +231,41 @@ func c14ConcurrentCold(c *core.Ctx, k *core.Case) {
 	if len(msgs) > 0 {
 		c.Fail(k, "concurrent-"+msgs[0][:min3(len(msgs[0]), 120)], fmt.Sprintf("%s called from %d goroutines at once: %s", t.name, g, msgs[0]))
 	}
+}
+
+// zeroRuleUnit: parameters constructed so that the first ZUC initialisation round
+// meets the "0 is written 2^31-1" rule (see refcrypto.ZeroRuleParams).
+func zeroRuleUnit(mac bool) core.Unit {
+	return core.Unit{Name: "zuc-zero-rule", Weight: 20, Run: func(c *core.Ctx) {
+		if !refReady(c) {
+			return
+		}
+		for i := 0; i < c.Pick(6, 40); i++ {
+			key, count, bearer, dir, ok := refcrypto.ZeroRuleParams(c.R.Uint64, mac, 1<<21)
+			if !ok {
+				c.Inconclusive("no ZUC zero-rule parameters found in 2^21 draws")
+				return
+			}
+			before := atomic.LoadInt64(&refcrypto.ZeroRuleEvents)
+			for _, n := range []int{0, 1, 8, 32, 33, 256, 1000} {
+				for api := int64(0); api < 2; api++ {
+					nb := n
+					if api == apiNAS {
+						nb = (n + 7) / 8 * 8
+					}
+					var k *core.Case
+					if mac {
+						k = &core.Case{Oracle: "mac", Target: "security.NIA3", I: []int64{3, int64(count), int64(bearer), int64(dir), int64(nb), api, 0}, B: [][]byte{key[:], c.R.Bytes((nb + 7) / 8)}}
+					} else {
+						k = &core.Case{Oracle: "cipher", Target: "security.NEA3", I: []int64{3, int64(count), int64(bearer), int64(dir), int64(nb), api}, B: [][]byte{key[:], c.R.Bytes((nb + 7) / 8)}}
+					}
+					c.Do(k)
+					c.NonTrivial(k.Hash())
+				}
+			}
+			if atomic.LoadInt64(&refcrypto.ZeroRuleEvents) > before {
+				c.Count("zuc_zero_rule_inputs", 1)
+			}
+		}
+	}}
 }
